@@ -152,6 +152,14 @@ fn main() {
                 println!("k={k}: {}", out.result.unwrap_or_else(|p| p.message));
             }
         }
+        "show" => {
+            // print the scenario a run index generates (no analyzer code runs)
+            let Some(prop) = args.get(1) else { usage() };
+            let i: u64 = args.get(2).and_then(|s| s.parse().ok()).unwrap_or(0);
+            let tier = if args.get(3).map(String::as_str) == Some("thorough") { Tier::Thorough } else { Tier::Quick };
+            let scn = props::generate(prop, driver::run_seed(master, prop, i), tier, i);
+            println!("{}", serde_json::to_string_pretty(&scn).unwrap_or_default());
+        }
         "determinism" => {
             let Some(prop) = args.get(1) else { usage() };
             let runs = args.get(2).and_then(|s| s.parse().ok()).unwrap_or(500);
